@@ -49,7 +49,8 @@ type rcase struct {
 	Era         string    `json:"era"`
 	PPConway    bool      `json:"pp_conway"` // dijkstra rules given *ConwayProtocolParameters
 	NRedeemers  int       `json:"n_redeemers"`
-	RedeemerMap bool      `json:"redeemer_map"` // Conway+ map form
+	Tags        []int     `json:"redeemer_tags,omitempty"` // purposes of the redeemers; nil = NRedeemers spend redeemers
+	RedeemerMap bool      `json:"redeemer_map"`            // Conway+ map form
 	Inputs      []outSpec `json:"inputs"`
 	Fee         uint64    `json:"fee"`
 	Pct         uint64    `json:"pct"`
@@ -68,6 +69,9 @@ func (rc rcase) shape() shape {
 	}
 	return *rc.Shape
 }
+
+// tagsOfEra: the redeemer purposes an era's transaction type can carry (probed at start-up)
+var tagsOfEra = map[string][]int{}
 
 var kinds = []string{"NoCollateralInputs", "InsufficientCollateral", "CollateralContainsNonAda", "TooManyCollateralInputs"}
 
@@ -137,20 +141,28 @@ func txid(i int) []byte {
 	return b
 }
 
+func (rc rcase) tags() []int {
+	if rc.Tags != nil {
+		return rc.Tags
+	}
+	return make([]int, rc.NRedeemers) // all RedeemerTagSpend
+}
+
 func redeemersItem(rc rcase) *vh.Item {
 	data := vh.U(0)
 	ex := vh.A(vh.U(10), vh.U(10))
+	keys := redeemerKeys(rc.tags())
 	// Dijkstra accepts only the map form
 	if (rc.RedeemerMap && rc.Era == "conway") || rc.Era == "dijkstra" {
 		var kv []*vh.Item
-		for i := 0; i < rc.NRedeemers; i++ {
-			kv = append(kv, vh.A(vh.U(0), vh.U(uint64(i))), vh.A(data, ex))
+		for _, k := range keys {
+			kv = append(kv, vh.A(vh.U(k[0]), vh.U(k[1])), vh.A(data, ex))
 		}
 		return vh.M(kv...)
 	}
 	var xs []*vh.Item
-	for i := 0; i < rc.NRedeemers; i++ {
-		xs = append(xs, vh.A(vh.U(0), vh.U(uint64(i)), data, ex))
+	for _, k := range keys {
+		xs = append(xs, vh.A(vh.U(k[0]), vh.U(k[1]), data, ex))
 	}
 	return vh.A(xs...)
 }
@@ -311,14 +323,12 @@ func observe(rc *rcase) (coq string, err error) {
 	if r := tx.CollateralReturn(); r != nil {
 		ret = "(Some " + see(r).coq() + ")"
 	}
-	nred := 0
-	if w := tx.Witnesses(); w != nil && w.Redeemers() != nil {
-		for range w.Redeemers().Iter() {
-			nred++
-		}
-	}
-	if nred != rc.NRedeemers {
-		return "", fmt.Errorf("decoder returned %d redeemers for %d", nred, rc.NRedeemers)
+	// the redeemer set as decoded must be the intended one (purposes included)
+	gotTags := decodedTags(tx)
+	wantTags := append([]int{}, rc.tags()...)
+	sort.Ints(wantTags)
+	if fmt.Sprint(gotTags) != fmt.Sprint(wantTags) {
+		return "", fmt.Errorf("decoder returned redeemer purposes %v for %v", gotTags, wantTags)
 	}
 	fee := tx.Fee()
 	if fee == nil {
@@ -346,7 +356,7 @@ func observe(rc *rcase) (coq string, err error) {
 		dres = append(dres, coqRes[classify(derr)])
 		res = append(res, coqRes[classify(verr)])
 	}
-	coq = fmt.Sprintf("(mk_case %s %s %s %s %s %s %s %s %s)", vh.Str(rc.Era), vh.N(uint64(nred)), vh.List(ins),
+	coq = fmt.Sprintf("(mk_case %s %s %s %s %s %s %s %s %s)", vh.Str(rc.Era), coqTags(gotTags), vh.List(ins),
 		vh.BigZ(fee), ret, vh.BigZ(new(big.Int).SetUint64(rc.Pct)), vh.BigZ(new(big.Int).SetUint64(rc.MaxColl)), vh.List(dres), vh.List(res))
 	return coq, nil
 }
@@ -450,6 +460,9 @@ func monitorOne(c *vh.Ctx, rc rcase, results []string) {
 }
 
 func runCase(c *vh.Ctx, cf *vh.CaseFile, rc rcase) {
+	if rc.Tags != nil {
+		rc.NRedeemers = len(rc.Tags)
+	}
 	c.Begin(rc)
 	coq, err := observe(&rc)
 	if err != nil {
@@ -457,13 +470,16 @@ func runCase(c *vh.Ctx, cf *vh.CaseFile, rc rcase) {
 		return
 	}
 	class := rc.Era + "/" + strings.Join(rc.Results, ",")
+	c.Res.Count("", false, fmt.Sprintf("%s/redeemer-purposes=%v", rc.Era, rc.tags()))
+	c.Res.Evaluations--
 	b, _ := json.Marshal(struct {
 		A, B    any
 		C, D, E uint64
 		F       any
 		G       int
 		H       shape
-	}{rc.Era, rc.Inputs, rc.Fee, rc.Pct, rc.MaxColl, rc.Return, rc.NRedeemers, rc.shape()})
+		I       []int
+	}{rc.Era, rc.Inputs, rc.Fee, rc.Pct, rc.MaxColl, rc.Return, rc.NRedeemers, rc.shape(), rc.tags()})
 	c.Res.Count(string(b), rc.NRedeemers > 0 && len(rc.Inputs) > 0, class)
 	if rc.NRedeemers > 0 && rc.Fee*rc.Pct%100 != 0 && len(rc.Inputs) > 0 {
 		c.Res.Sample(map[string]any{"era": rc.Era, "fee": rc.Fee, "pct": rc.Pct, "inputs": rc.Inputs, "return": rc.Return, "results": rc.Results})
@@ -560,7 +576,19 @@ func returnFor(r *vh.Rng, ins []outSpec, coin uint64, perturb int) *outSpec {
 func genCase(c *vh.Ctx) rcase {
 	r := c.Rng
 	rc := rcase{Era: vh.PickOne(r, c32Eras), PPConway: r.Bool(), RedeemerMap: r.Bool()}
-	rc.NRedeemers = []int{1, 1, 1, 2, 0}[r.Intn(5)]
+	// redeemer set: none / one purpose alone / a pair / three, over every purpose the era can carry
+	tags := tagsOfEra[rc.Era]
+	switch r.Intn(6) {
+	case 0:
+		rc.Tags = []int{}
+	case 1, 2, 3:
+		rc.Tags = []int{vh.PickOne(r, tags)}
+	case 4:
+		rc.Tags = []int{vh.PickOne(r, tags), vh.PickOne(r, tags)}
+	default:
+		rc.Tags = []int{vh.PickOne(r, tags), vh.PickOne(r, tags), vh.PickOne(r, tags)}
+	}
+	rc.NRedeemers = len(rc.Tags)
 	// fee and percentage, often with fee*pct not divisible by 100
 	switch r.Intn(4) {
 	case 0:
@@ -631,11 +659,22 @@ func genCase(c *vh.Ctx) rcase {
 }
 
 func run(c *vh.Ctx) error {
-	c.Res.Rule = "Alonzo..Dijkstra transactions built as CBOR (redeemers in array and map form, collateral inputs, collateral return in array and map output form) decoded by the era decoders; collateral UTxOs decoded by the era output decoders and served by a mock ledger state; fee x percentage mostly not divisible by 100; balance at floor/ceil of the share and one either side; tokens: none / empty map / empty policy / zero quantity / 1-3 assets; return exact or perturbed (quantity+1, asset dropped, one of several names of a policy dropped, asset added, second name added under a returned policy, zero entry added), sometimes larger than the inputs (negative balance); the rest of the transaction varied independently (inputs / reference inputs in {0,1,2,7,8,9,16,40}, outputs, certificates); every clause observed twice: its rule function called directly, and the whole era rule list through common.VerifyTransaction with the same ledger state (other rules executed, verdicts discarded); distinct by the whole generator record; non-trivial = has redeemers and at least one collateral input"
+	c.Res.Rule = "Alonzo..Dijkstra transactions built as CBOR (redeemer sets over every purpose the era can carry - the RedeemerTag constants are enumerated from the source by go/ast and probed per era - each purpose alone, in pairs, triples and none, crossed with no / insufficient / exactly enough collateral and un-returned tokens; redeemers in array and map form, collateral inputs, collateral return in array and map output form) decoded by the era decoders; collateral UTxOs decoded by the era output decoders and served by a mock ledger state; fee x percentage mostly not divisible by 100; balance at floor/ceil of the share and one either side; tokens: none / empty map / empty policy / zero quantity / 1-3 assets; return exact or perturbed (quantity+1, asset dropped, one of several names of a policy dropped, asset added, second name added under a returned policy, zero entry added), sometimes larger than the inputs (negative balance); the rest of the transaction varied independently (inputs / reference inputs in {0,1,2,7,8,9,16,40}, outputs, certificates); every clause observed twice: its rule function called directly, and the whole era rule list through common.VerifyTransaction with the same ledger state (other rules executed, verdicts discarded); distinct by the whole generator record; non-trivial = has redeemers and at least one collateral input"
 	c.Res.Modelled = []string{
 		"'runs scripts' is taken as 'has at least one redeemer', as the code does",
 		"MultiAsset.Compare is modelled as equality of all per-asset quantities (absent = 0)",
 		"each clause is observed by calling the entries of the era's real rule list that implement it, directly and through VerifyTransaction over the whole list (verdicts of the other rules discarded)",
+	}
+	all, err := enumerateRedeemerTags()
+	if err != nil {
+		return err
+	}
+	for _, era := range c32Eras {
+		tagsOfEra[era] = eraTags(era, all)
+		if len(tagsOfEra[era]) == 0 {
+			return fmt.Errorf("no redeemer purpose decodes in era %s", era)
+		}
+		c.Res.Notes = append(c.Res.Notes, fmt.Sprintf("redeemer purposes (of %v enumerated from ledger/common) that a %s transaction can carry: %v", all, era, tagsOfEra[era]))
 	}
 	cf := c.NewCaseFile("c32", header)
 	cf.SetShardSize(300)
@@ -677,7 +716,37 @@ func run(c *vh.Ctx) error {
 		runCase(c, cf, rcase{Era: era, NRedeemers: 1, Inputs: two, Fee: 10, Pct: 150, MaxColl: 3,
 			Return: &outSpec{Coin: 50, Shape: 1, Assets: []asset{{0, 1, 5}, {0, 0, 3}, {1, 0, 2}}}})
 	}
-	n := c.Pick(1200, 20000)
+	// every purpose the era can carry: alone, in pairs, and none, crossed with the
+	// collateral situations none / insufficient / exactly enough / tokens not returned
+	for _, era := range c32Eras {
+		tags := tagsOfEra[era]
+		sets := [][]int{{}}
+		for _, t := range tags {
+			sets = append(sets, []int{t})
+		}
+		for i, a := range tags {
+			for _, b := range tags[i:] {
+				if c.Thorough() || a == b || b == tags[len(tags)-1] || c.Rng.Chance(1, 3) {
+					sets = append(sets, []int{a, b})
+				}
+			}
+		}
+		for _, set := range sets {
+			set := set
+			tok := []outSpec{{Coin: 100, Shape: 1, Assets: []asset{{0, 1, 5}}}}
+			for _, base := range []rcase{
+				{Fee: 10, Pct: 150, MaxColl: 3},                                          // no collateral inputs
+				{Inputs: []outSpec{{Coin: 14}}, Fee: 10, Pct: 150, MaxColl: 3},           // 1400 < 1500
+				{Inputs: []outSpec{{Coin: 15}}, Fee: 10, Pct: 150, MaxColl: 3},           // exactly enough
+				{Inputs: tok, Fee: 10, Pct: 150, MaxColl: 3},                             // tokens, no return
+				{Inputs: tok, Fee: 10, Pct: 150, MaxColl: 3, Return: &outSpec{Coin: 50}}, // tokens not returned
+			} {
+				base.Era, base.Tags, base.RedeemerMap = era, set, c.Rng.Bool()
+				runCase(c, cf, base)
+			}
+		}
+	}
+	n := c.Pick(900, 20000)
 	for i := 0; i < n; i++ {
 		rc := genCase(c)
 		sh := genShape(c.Rng)
